@@ -179,6 +179,8 @@ class PluginFilter(object):
     """Adapter with the DirectFilter interface (core.run) on top of a Harness with an active print."""
 
     def __init__(self, config, regions, harness=None):
+        if "may_shrink" not in config:
+            config = dict(config, may_shrink=True)      # so that region deletions mid-print can be part of a history
         self.h = harness or Harness(config)
         if harness is None:
             for reg in regions:
@@ -199,6 +201,11 @@ class PluginFilter(object):
         rv = self.h.api("addExcludeRegion", data)
         if rv is not None:
             raise RuntimeError("addExcludeRegion refused: %r" % (rv,))
+
+    def delete_region(self, region_id):
+        rv = self.h.api("deleteExcludeRegion", {"id": region_id})
+        if rv is not None:
+            raise RuntimeError("deleteExcludeRegion refused: %r" % (rv,))
 
 
 def selftest():
